@@ -1228,6 +1228,32 @@ func Cluster(eco string, r *rand.Rand) []string {
 			out = append(out, b+"-1", b+".pre.1", b+".pre1", b+"-2", b+".0.beta1", b+".beta1", b+".0-1", b+".0")
 		}
 	}
+	// identifier-count family: the tail made of k dot-separated identifiers for k around 8, 16, 32 (and around every
+	// small number literal that the baseline dictionary does not have), in sibling pairs that differ in the last
+	// identifier: fixed-size scratch arrays and inline buffers hold "at most n identifiers"
+	if chance(r, 1, 8) || (len(newNums[eco]) > 0 && chance(r, 1, 3)) {
+		counts := []int{7, 8, 9, 15, 16, 17, 32, 33}
+		for _, ns := range newNums[eco] {
+			if n, err := strconv.Atoi(ns); err == nil && n >= 3 && n <= 64 {
+				counts = append(counts, n-1, n, n+1, 2*n, 2*n+1)
+			}
+		}
+		sep0 := "-"
+		if ms := MarkerTable[eco]; len(ms.Pre) > 0 && len(ms.Pre[0]) > 0 {
+			if c0 := ms.Pre[0][0]; !(c0 >= 'a' && c0 <= 'z') {
+				sep0 = ms.Pre[0][:1]
+			}
+		}
+		for n := 0; n < 4; n++ {
+			k := counts[r.IntN(len(counts))]
+			ids := make([]string, k)
+			for x := range ids {
+				ids[x] = []string{"a", "1", "rc", "x", "2", "b"}[(x+n)%6]
+			}
+			stem := base + sep0 + strings.Join(ids[:k-1], ".")
+			out = append(out, stem+".1", stem+".2", stem+".a", stem)
+		}
+	}
 	// maven: the unique snapshots of this base as a repository lists them, next to the literal -SNAPSHOT
 	if eco == "maven" && chance(r, 1, 5) {
 		out = append(out, base+"-SNAPSHOT", base+"-snapshot")
